@@ -386,7 +386,30 @@ inductive Crit where
   | err                                              -- "colValue/ search Text can not be empty"
   | mf (f : MatchFilter)                             -- MatchFilter on column `*`
   | expr (fopEq : Bool) (val : Bytes) (hasOrig : Bool) (orig : Bytes)   -- ExpressionFilter column op value
+  | number                                           -- a quoted NUMBER against a named column (patch c02-6): numeric comparison, no bloom probe of the text
 deriving Repr, DecidableEq
+
+def isDigitB (b : Nat) : Bool := decide (48 ≤ b) && decide (b ≤ 57)
+
+/-- the text is a number for `utils.FastParseFloat`: `[+-]?(digits[.digits*]|.digits)([eE][+-]?digits)?` (what decides, in
+ProcessSingleFilter since patch c02-6, that a quoted value against a named column is compared by value; strconv.ParseFloat
+must accept it too, which it does for this grammar unless the exponent is out of range — suite domain: at most 2
+exponent digits) -/
+def isNumText (s : Bytes) : Bool :=
+  let s1 := match s with | 43 :: r => r | 45 :: r => r | _ => s
+  let ip := s1.takeWhile isDigitB
+  let r1 := s1.dropWhile isDigitB
+  let (fp, r2) : Bytes × Bytes := match r1 with
+    | 46 :: r => (r.takeWhile isDigitB, r.dropWhile isDigitB)
+    | _ => ([], r1)
+  if ip.isEmpty && fp.isEmpty then false else
+  match r2 with
+  | [] => true
+  | e :: r =>
+    if e == 101 || e == 69 then
+      let r3 := match r with | 43 :: x => x | 45 :: x => x | _ => r
+      !r3.isEmpty && r3.all isDigitB
+    else false
 
 /-- `createMatchPhraseFilterCriteria(k, v, And, negate, cci)`; `also` = cci.ShouldAlsoSearchWithOriginalCase() -/
 def mkPhrase (v : Bytes) (negate also : Bool) (corig : Bytes) : MatchFilter :=
@@ -417,6 +440,7 @@ def processSingleFilter (star neq ci : Bool) (t o : Bytes) : Crit :=
       if t.contains 34 then .mf (mkPhrase cleaned neq also corig)
       else if t.contains 42 then .expr (!neq) t also corig
       else .mf (mkWords t neq also corig)
+    else if isNumText cleaned then .number        -- patch c02-6 (isTerm = false here)
     else .expr (!neq) cleaned also corig
 
 /-- bloom probe of a criterion (`GetSearchQueryFromFilterCriteria` + `SearchQuery.GetAllBlockBloomKeysToSearch`) -/
@@ -425,6 +449,7 @@ def Crit.probe (c : Crit) (ci : Bool) : Probe :=
   | .err => { keys := [], orig := [], wildcard := false, op := .and }
   | .mf f => f.probe ci
   | .expr fopEq val hasOrig orig => exprProbe fopEq (hasStar val) val hasOrig orig ci
+  | .number => { keys := [], orig := [], wildcard := false, op := .and }
 
 def Crit.negate : Crit → Bool
   | .mf f => f.negate
